@@ -159,6 +159,71 @@ def convert_cases(res, drv, rng, tier, d):
                     res.mismatches.append({"op": "convert.pub", "w": w, "x": x, "y": y, "model": mp})
 
 
+def cli_cases(res, drv, d):
+    """convert and keys through the real command line (option spellings, defaults)"""
+    from concurrent.futures import ThreadPoolExecutor
+    from cryptography.hazmat.primitives import serialization
+    key = nist_key("secp256r1", 106)
+    inp = os.path.join(d, "cli_key.pem")
+    open(inp, "wb").write(pem_of(key))
+    exp, _ = expected_public(key)
+    variants = [[], ["--columns-count", "1"], ["--columns-count", "12", "--indentation-count", "2"], ["--array-name", "root_public_key", "--length-name", "root_len"],
+                ["--array-type", "unsigned char", "--length-type", "unsigned int", "--no-const"], ["--indentation-tab", "--indentation-count", "1"], ["--no-length"],
+                ["--columns-count", "200"]]
+
+    def conv(k):
+        out = os.path.join(d, f"cli_conv{k}.c")
+        common.make_stale(out)
+        rc, log = common.run_cli(["convert", "--input-file", inp, "--output-file", out] + variants[k], d)
+        return rc, log, (open(out).read() if common.was_written(out) else None)
+
+    def keys(k):
+        ktype = ["secp256r1", "secp384r1", "secp521r1", "ed25519", "ed448"][k]
+        prefix = os.path.join(d, f"cli keys.{k}")
+        rc, log = common.run_cli(["keys", "--output-file", prefix, "--type", ktype], d)
+        return rc, log, prefix, ktype
+    with ThreadPoolExecutor(max_workers=12) as ex:
+        couts = list(ex.map(conv, range(len(variants))))
+        kouts = list(ex.map(keys, range(5)))
+    for v, (rc, log, text) in zip(variants, couts):
+        res.case(["cli-convert", v], nontrivial=True)
+        res.count("cli:convert")
+        if rc != 0 or text is None:
+            res.spec_failures.append({"cli": "convert", "options": v, "what": f"the command line failed (exit {rc})", "log": log[-300:]})
+            continue
+        m = re.search(r"(\w[\w ]*?)\s+(\w+)\[\] = \{\n(.*?)\};\n", text, re.S)
+        if not m:
+            res.spec_failures.append({"cli": "convert", "options": v, "text": text[:300], "what": "no array definition found in the C file"})
+            continue
+        name, body = m.group(2), m.group(3)
+        toks = bytes.fromhex(drv.call({"op": "convert.tokens", "text": body})["ok"])
+        if toks != exp:
+            res.spec_failures.append({"cli": "convert", "options": v, "what": "array bytes written through the command line differ from the public key"})
+        want_name = v[v.index("--array-name") + 1] if "--array-name" in v else "key_buf"
+        if name != want_name:
+            res.spec_failures.append({"cli": "convert", "options": v, "array_name": name, "what": "the array does not carry the requested (or default) name"})
+        if "--no-length" not in v:
+            ln = v[v.index("--length-name") + 1] if "--length-name" in v else "key_len"
+            if not re.search(r"\b%s = (\([^)]*\) )?sizeof\(%s\);" % (re.escape(ln), re.escape(name)), text):
+                res.spec_failures.append({"cli": "convert", "options": v, "what": f"the length variable {ln} is not sizeof({name}) of the array actually emitted"})
+        cols = int(v[v.index("--columns-count") + 1]) if "--columns-count" in v else None
+        if cols and any(len(re.findall(r"0x[0-9a-f]{2}", r)) > cols for r in body.split("\n")):
+            res.spec_failures.append({"cli": "convert", "options": v, "what": "a row holds more than the requested number of columns"})
+    for rc, log, prefix, ktype in kouts:
+        res.case(["cli-keys", ktype], nontrivial=True)
+        res.count("cli:keys")
+        privp, pubp = prefix + "_priv.pem", prefix + "_pub.pem"
+        if rc != 0 or not (os.path.exists(privp) and os.path.exists(pubp)):
+            res.spec_failures.append({"cli": "keys", "type": ktype, "what": f"keys with default options failed or did not write <prefix>_priv.pem / _pub.pem (exit {rc})", "log": log[-300:]})
+            continue
+        priv = serialization.load_pem_private_key(open(privp, "rb").read(), None)
+        pub = serialization.load_pem_public_key(open(pubp, "rb").read())
+        kind = priv.curve.name if hasattr(priv, "curve") else type(priv).__name__.lower()
+        if ktype not in kind or priv.public_key().public_bytes(serialization.Encoding.DER, serialization.PublicFormat.SubjectPublicKeyInfo) != \
+                pub.public_bytes(serialization.Encoding.DER, serialization.PublicFormat.SubjectPublicKeyInfo):
+            res.spec_failures.append({"cli": "keys", "type": ktype, "holds": kind, "what": "the pair written through the command line is not a matching pair of the requested type"})
+
+
 def keys_cases(res, rng, tier, d):
     from suit_generator import cmd_keys
     from suit_generator.exceptions import GeneratorError
@@ -247,6 +312,10 @@ def run(tier: str, seed: int) -> int:
     drv.close()
     from .. import reuse
     reuse.keygen_reuse(res, PROP)
+    with tempfile.TemporaryDirectory(prefix="verif_c15cli_") as dcli:
+        dcl = Driver()
+        cli_cases(res, dcl, dcli)
+        dcl.close()
     return finish(res, st, RULE, NOTE)
 
 
